@@ -130,18 +130,28 @@ Pool(a, b) == [lo |-> a.lo, hi |-> b.hi, sy |-> a.sy + b.sy, sw |-> a.sw + b.sw]
 Pooled(bs, k) == [q \in 1..(Len(bs) - 1) |-> IF q < k THEN bs[q] ELSE IF q = k THEN Pool(bs[k], bs[k + 1]) ELSE bs[q + 1]]
 Violates(bs, k) == RLt(BMean(bs[k + 1]), BMean(bs[k]))          \* mean(k) > mean(k+1)
 
-\* The input is chosen by an action (not in Init) and the run starts with a separate action, so that TLC's workers
-\* share the inputs (initial states are processed by a single thread).
+\* The input is chosen by actions (not in Init), level by level, and the run starts with a separate action, so that
+\* TLC's workers share the inputs (initial states and the successors of one state are processed by a single thread).
 Init ==
   /\ ys = <<>> /\ ws = <<>> /\ mode = "any" /\ blocks = <<>>
-  /\ cur = 1 /\ pc = "pick" /\ steps = 0
-Pick ==
-  /\ pc = "pick"
-  /\ \E n \in 1..MaxN : ys' \in [1..n -> 0..MaxY] /\ ws' \in [1..n -> 1..MaxW]
+  /\ cur = 1 /\ pc = "pickN" /\ steps = 0
+PickN ==
+  /\ pc = "pickN"
+  /\ \E n \in 1..MaxN : ys' = [i \in 1..n |-> 0]
   /\ mode' \in {"any", "best"}
-  /\ blocks' = [i \in 1..Len(ys') |-> [lo |-> i, hi |-> i, sy |-> ws'[i] * ys'[i], sw |-> ws'[i]]]
+  /\ pc' = "pickY"
+  /\ UNCHANGED <<ws, blocks, cur, steps>>
+PickY ==
+  /\ pc = "pickY"
+  /\ ys' \in [1..Len(ys) -> 0..MaxY]
+  /\ pc' = "pickW"
+  /\ UNCHANGED <<ws, mode, blocks, cur, steps>>
+PickW ==
+  /\ pc = "pickW"
+  /\ ws' \in [1..Len(ys) -> 1..MaxW]
+  /\ blocks' = [i \in 1..Len(ys) |-> [lo |-> i, hi |-> i, sy |-> ws'[i] * ys[i], sw |-> ws'[i]]]
   /\ pc' = "ready"
-  /\ UNCHANGED <<cur, steps>>
+  /\ UNCHANGED <<ys, mode, cur, steps>>
 Start ==
   /\ pc = "ready" /\ pc' = "run"
   /\ UNCHANGED <<ys, ws, mode, blocks, cur, steps>>
@@ -189,7 +199,7 @@ FinishBest ==
   /\ UNCHANGED <<ys, ws, mode, blocks, cur, steps>>
 
 MergeAny == \E k \in 1..(Len(blocks) - 1) : Merge(k)
-Next == Pick \/ Start \/ MergeAny \/ FinishAny
+Next == PickN \/ PickY \/ PickW \/ Start \/ MergeAny \/ FinishAny
         \/ Advance \/ MergeNext \/ MergeBack \/ BackDone \/ FinishBest
 
 Spec == Init /\ [][Next]_vars /\ WF_vars(Next)
